@@ -247,6 +247,9 @@ class DocGen:
                 pass
             if flat.size(d[4], rs.leaf) <= 90 and rs.valid(d):
                 return d
+        d = self._min_node(rs.top)
+        if rs.valid(d):
+            return d
         raise ValueError("cannot generate a valid document for " + self.sch.id)
 
     def doc(self, budget=None):
